@@ -22,7 +22,7 @@ ASSUMPTIONS = ["instances are matched to epochs by their start cycle (at most on
                "g++-12 -O1 build of the working tree with harness-side shims"]
 FLOORS = {"epochs_checked": {"quick": 1200, "thorough": 20000}, "returns_to_earlier_key": {"quick": 250, "thorough": 4000},
           "instance_runs_compared": {"quick": 5000, "thorough": 80000}, "output_ticks_compared": {"quick": 1200, "thorough": 20000},
-          "unmatched_key_errors": {"quick": 3, "thorough": 50}}
+          "unmatched_key_errors": {"quick": 3, "thorough": 50}, "default_to_default_key_changes": {"quick": 30, "thorough": 500}}
 BATCH = 20
 SOLO = (1001, 1002, 1003, 1004)
 
@@ -47,7 +47,8 @@ def gen_case12(rng, name, idx):
         if pattern == "aba":
             k = 1 if i % 2 == 0 else 2
         else:
-            k = rng.choice([1, 2, 3, 3 if not unmatched_ok else 9])
+            # with a default branch several DIFFERENT unmatched keys occur (consecutive ones select the default branch anew)
+            k = rng.choice([1, 2, 3, 3] if not unmatched_ok else [1, 2, 3, 9, 10, 11])
         keys.append((t, k))
     unmatched = idx % 15 == 14 and not has_default
     if unmatched and keys:
@@ -162,7 +163,7 @@ def check(case, tr):
     if err_at is not None:
         # an unmatched key with no default branch is an error
         if run.error is None:
-            V.append(f"key 9 at t={err_at} matches no branch and there is no default, but the run completed normally")
+            V.append(f"key at t={err_at} matches no branch and there is no default, but the run completed normally")
         res.counters = {"unmatched_key_errors": 1 if run.error else 0}
         last = max([int(tk[1]) for _, k, tk in run.events if k == "C<" and tk[0] == "0"] + [-1])
         if last > err_at:
@@ -247,6 +248,8 @@ def check(case, tr):
     if known2:
         res.violations.append(Violation(known2[0], "switch-branch-terminal-retains-previous-output"))
     res.counters = {"epochs_checked": len(epochs), "returns_to_earlier_key": returns, "instance_runs_compared": runs_cmp,
-                    "output_ticks_compared": len(exp_out)}
+                    "output_ticks_compared": len(exp_out),
+                    "default_to_default_key_changes": sum(1 for a, b in zip(epochs, epochs[1:])
+                                                          if a["key"] not in (1, 2, 3) and b["key"] not in (1, 2, 3))}
     res.nontrivial = len(epochs) >= 3 and returns >= 1
     return res
